@@ -83,6 +83,11 @@ type (
 	sliceErr   []string // an error of slice kind
 )
 
+type errGo struct{ s string }
+
+func (e errGo) Error() string    { return "errgo:" + e.s }
+func (e errGo) GoString() string { return "errGo{" + e.s + "}" }
+
 func (e errnoT) Error() string     { return fmt.Sprintf("errno %d", int(e)) }
 func (e strKindErr) Error() string { return "strerr:" + string(e) }
 func (e sliceErr) Error() string   { return "sliceerr:" + strings.Join(e, ",") }
@@ -101,6 +106,7 @@ var c17Errs = []c17Err{
 	{"error+Formatter", errFmtT{"ef"}, false},
 	{"errors.New", errors.New("new"), false},
 	{"pointer receiver", &ptrErr{"p"}, false},
+	{"error+GoStringer", errGo{"g"}, false},
 	{"integer-kind error", errnoT(2), false},
 	{"string-kind error", strKindErr("sk"), false},
 	{"slice-kind error", sliceErr{"a", "b"}, false},
